@@ -18,7 +18,9 @@
  *       created over the same array (A.live counts the ones not yet cleared).
  *
  * Link: kit/vp_arriter.c + real table/iterator.c (ldb_iter_create/destroy) +
- * an allocator (kit/vp_alloc.c).
+ * kit/vp_nondet.c (vp_input) + an allocator model (kit/vp_alloc.c, or
+ * kit/vp_alloc_c07.c when the unit grows ldb_buffer_t's or vp_arriter_create_in
+ * is used).
  *
  * Function-pointer restriction targets (DESIGN R8), one per v-table slot:
  *   vp_arr_clear vp_arr_valid vp_arr_first vp_arr_last vp_arr_seek
@@ -26,11 +28,19 @@
  * and for the two cleanup call sites in ldb_iter_clear (`->func`):
  *   vp_arr_noop_cleanup   (otherwise they fan out to every address-taken
  *   two-pointer function, including the unit under test: recursion)
+ * obl/C07.py derives the whole list from the goto binary (AutoObl).
  *
- * Cost note (measured): keep every vp_arr_t a SEPARATE static object (not an
- * array of vp_arr_t indexed by a symbolic child number) and never write to it
- * after set-up; a write through "one of several arrays" makes CBMC copy the
- * whole object (merger 1x2 entries, 3 ops: 77 M clauses before, 1-2 M after).
+ * Cost notes (measured with CBMC 6.11 on the C07 harnesses):
+ *  - keep every vp_arr_t a SEPARATE static object (not an array of vp_arr_t
+ *    indexed by a symbolic child number) and never write to it after set-up:
+ *    a write through "one of several arrays" makes CBMC copy the whole object;
+ *  - keys/values are separate exact-size heap objects (see kcap/vcap): with
+ *    in-struct storage every byte read through a slice was a byte_extract at
+ *    a symbolic offset from the whole struct (merger 2x2, 3 fixed ops:
+ *    9.0 M clauses in-struct, 1.8 M with separate objects);
+ *  - key()/value() pick the entry with an if-chain over concrete indices;
+ *    `p = a->key2d[pos]` (decay of a 2-D array row at a symbolic index) is
+ *    mis-modelled by CBMC 6.11 and gave false counterexamples.
  *
  * Contract checks: next/prev/key/value on an invalid cursor are reported
  * with VP_ASSERT (the unit above violated "REQUIRES: valid()").
@@ -66,8 +76,7 @@ typedef struct vp_arr_s {
   size_t vlen[VP_ARR_MAXN];
   /* every key and every value is its OWN small heap object (VP_ARR_MAXK /
      VP_ARR_MAXV bytes, from vp_input): a read through a slice the unit holds
-     is then a byte extract from a 12-byte object, not from this whole struct
-     (measured: merger 2x2, 3 ops: 9 M clauses with in-struct storage) */
+     is then a byte extract from that small object, not from this struct */
   uint8_t *key[VP_ARR_MAXN];
   uint8_t *val[VP_ARR_MAXN];
   /* size of the objects allocated by vp_arr_add (set after vp_arr_init when
@@ -76,8 +85,7 @@ typedef struct vp_arr_s {
   size_t kcap;                             /* default VP_ARR_MAXK */
   size_t vcap;                             /* default VP_ARR_MAXV */
   /* ghost counters (monitors for the harness); written only by
-     create/clear -- nothing in the hot path writes to the (large) array
-     object, see the note on cost below */
+     create/clear -- nothing in the hot path writes to this object */
   int live;                                /* iterators created - cleared */
   int created;                             /* iterators ever created */
 } vp_arr_t;
